@@ -93,7 +93,7 @@ func (a *Agg) finish() int {
 		fmt.Printf("KNOWN-FINDING: property=%s %s (oracle=%s class=%s, %d case(s))\n", a.Check, findings[fi].What, findings[fi].Oracle, findings[fi].Class, n)
 	}
 
-	replayDir := filepath.Join(VerifDir(), "replay", a.Check)
+	replayDir := filepath.Join(OutDir(), "replay", a.Check)
 	var replayPaths []string
 	for i, v := range unknown {
 		if i >= 25 {
@@ -189,9 +189,9 @@ func (a *Agg) finish() int {
 	if a.Plan.Assumptions == nil {
 		ev["assumptions"] = []string{}
 	}
-	os.MkdirAll(filepath.Join(VerifDir(), "evidence"), 0o755)
+	os.MkdirAll(filepath.Join(OutDir(), "evidence"), 0o755)
 	b, _ := json.MarshalIndent(ev, "", " ")
-	os.WriteFile(filepath.Join(VerifDir(), "evidence", a.Check+".json"), append(b, '\n'), 0o644)
+	os.WriteFile(filepath.Join(OutDir(), "evidence", a.Check+".json"), append(b, '\n'), 0o644)
 
 	fmt.Printf("%s %s: cases=%d evals=%d transitions=%d states=%d validated=%d unspecified=%d nontrivial=%d exhaustive=%v wall=%.1fs\n",
 		a.Check, a.Tier, sumSpaces(a.PerSpace), a.Stats.Evals, a.Stats.Trans, len(a.States), a.Stats.Validated, a.Stats.Unspec, a.Stats.Nontrivial, a.Exhaustive, wall)
@@ -234,4 +234,14 @@ func sumSpaces(m map[string]int64) int64 {
 		n += v
 	}
 	return n
+}
+
+// OutDir is where evidence and replay files go: /verif, unless VERIF_OUT_DIR
+// redirects them (used by the detection scripts so that runs against a
+// deliberately broken tree do not overwrite the committed evidence).
+func OutDir() string {
+	if d := os.Getenv("VERIF_OUT_DIR"); d != "" {
+		return d
+	}
+	return VerifDir()
 }
